@@ -415,6 +415,12 @@ def c12_monitor(ctx, tr, ix):
         if op["pre"] is None or op["raised"] or nan_in(op["pre"]) or nan_in(op["post"]):
             continue
         pre, post, a = op["pre"], op["post"], op["args"]
+        if op["op"] == "_on_settlement":
+            # share quantities are whole numbers: a conversion must not leave a fraction of a share
+            for h in post["holdings"]:
+                q_ = h["long"]["qty"]
+                if q_ != int(q_) and all(x["long"]["qty"] == int(x["long"]["qty"]) for x in pre["holdings"]):
+                    ctx.witness("C12.5", {"kind": "fractional_quantity_after_conversion"}, "settlement on %s: %s holds %r shares after a share conversion" % (a.get("today"), h["id"], q_), rp)
         reinvested = collections.Counter()
         for nop in mine_nested:
             if nop["op"] == "apply_trade" and nop["args"].get("order") is None and nop["args"]["side"] == "BUY":
@@ -438,9 +444,12 @@ def c12_monitor(ctx, tr, ix):
                         ph = next((x for x in post["holdings"] if x["id"] == oid), None)
                         if ph is not None and r[3] != today8:
                             rv = ph["long"]["div"]
-                            if rv is None or not near(rv[1], q * (r[4] / r[5]), 1e-9) and len([x for x in S["div"].get(oid, []) if x[1] == prev8]) == 1:
+                            # (two rows with one book-closure date are merged by the code into one receivable with the first row's payable date)
+                            if len([x for x in S["div"].get(oid, []) if x[1] == prev8]) == 1 and (rv is None or not near(rv[1], q * (r[4] / r[5]), 1e-9)):
                                 ctx.witness("C12.2", {"kind": "receivable_amount"}, "%s ex-date %s: receivable %r, record-date quantity x dps = %r" % (oid, today8, rv, q * (r[4] / r[5])), rp)
-                        if h["long"]["div"] is not None and h["long"]["div"][0] != today8:
+                        if h["long"]["div"] is not None:
+                            # a receivable is still pending (payable today or later) when the next one is booked: it is overwritten (F21);
+                            # the book-closure handler runs before the payable handler, so "payable today" is lost as well
                             actions.append("overlapping_dividend")
                 for ex, ratio in S["split"].get(oid, []):
                     if ex == today8 * 1000000 and q:
